@@ -1,7 +1,7 @@
 SPECIFICATION TSpec
 CONSTANTS
   Threads = {1, 2}
-  Dev = {"gateAnyOrder"}
+  Dev = {"gateAnyOrder", "cycleUnobserved"}
   LenientGenDrop = FALSE
   LenientOrder = FALSE
 CONSTRAINT HighWater
